@@ -50,7 +50,7 @@ CHECKS = {
    note="Stage 1 sequential (exact clock control); stage 2 concurrent: sweeper thread with 1-50 ms interval against renewing/replacing writers and readers, oracle from the observed install sequence (only an expired generation may disappear without a call accounting for it)."),
  "C12": dict(engine="seq", level="exploration", ref="DESIGN.md 5 C12",
    technique=TECH + "observed automatic timestamps checked against per-key history under clock faults",
-   text="Mixes of automatic and explicit (past, future, extreme) timestamps over all operation kinds with frozen and jumping clocks, across flush and clean restart; each automatic timestamp observed through the snapshot hook must exceed the key's previous timestamp and every timestamp accepted or recovered for it; automatic calls must not be answered OlderTimestamp unless the key sits at u64::MAX because of its own history (a key pushed to u64::MAX by a neighbour of its clock shard is the known finding listed in known_findings.json). A second stage crashes workloads that carry versions hours, years and almost 2^64 ns ahead of the clock, recovers every image and demands that automatic writes on recovered and on fresh keys are accepted with versions above the recovered ones.",
+   text="Mixes of automatic and explicit (past, future, extreme) timestamps over all operation kinds with frozen and jumping clocks, across flush and clean restart; each automatic timestamp observed through the snapshot hook must exceed the key's previous timestamp and every timestamp accepted or recovered for it; automatic calls must not be answered OlderTimestamp unless the key sits at u64::MAX because of its own history (a key pushed to u64::MAX by a neighbour of its clock shard is the known finding listed in known_findings.json). A second stage crashes workloads that carry versions hours, years and almost 2^64 ns ahead of the clock, recovers every image and demands that automatic writes on recovered and on fresh keys are accepted with versions above the recovered ones. A third stage (conc engine, TTL profile with the background sweeper) includes a directed family in which a key arrives already expired and one client follows up with automatic writes in the same clock tick while the sweeper retires the expired generation: no automatic call may be refused as older without a concurrent writer.",
    note="Sequential histories plus crash recovery (crash engine, profile C12). One KNOWN-FINDING (collateral pinning at u64::MAX through the shared version clock) is printed on the unchanged tree."),
  "C13": dict(engine="seq", level="exploration", ref="DESIGN.md 5 C13",
    technique=TECH + "exact accounting oracle after every simulated call",
